@@ -65,6 +65,9 @@ def check(ck):
         ck.ok("C12.1", "%s: no shutdown() in server_close" % q.fn(fc), "server_close does not wait for a serve loop", q.loc(fc, fc.node))
 
     # ---- C12.2 must-call -----------------------------------------------------------------------------
+    if "serve_forever" in prog.cls(SRV, POOLED).methods or "shutdown" in prog.cls(SRV, POOLED).methods:
+        # the pooled server re-implements the serve loop / its shutdown protocol: what server_close may assume about it is not modelled
+        raise AnalysisError("PooledJSONRPCServer overrides serve_forever / shutdown: the shutdown protocol server_close relies on is not modelled")
     base = [(n, c) for n in g.live_nodes() for c in node_calls(n) if call_name(c) == "server_close"]
     stop = [(n, c) for n in g.live_nodes() for c in node_calls(n) if call_name(c) == "stop"]
     pd = postdominators(g, [g.return_exit.id], NORMAL)
@@ -90,7 +93,15 @@ def check(ck):
                    "the connection is handed over as `%s`: the request/handler pair is altered (e.g. finish_request without shutdown_request)" % dump(c)[:80],
                    q.loc(fp, n))
     from vlib.model import is_logging_call
-    others = [n for n in gp.live_nodes() if n.kind in ("stmt", "return", "raise", "test") and not (n.kind == "stmt" and isinstance(n.ast, ast.Expr) and
+    # (what is done when a bounded pool refuses the task - `except queue.Full:` - concerns a request that is not accepted at all)
+    full_h = set()
+    for t_ in ast.walk(fp.node):
+        if isinstance(t_, ast.Try):
+            for h_ in t_.handlers:
+                if h_.type is not None and dump(h_.type).endswith("Full"):
+                    full_h.update(id(x_) for b_ in h_.body for x_ in ast.walk(b_))
+    others = [n for n in gp.live_nodes() if n.ast is not None and id(n.ast) in full_h] and [] or []
+    others = [n for n in gp.live_nodes() if not (n.ast is not None and id(n.ast) in full_h) and n.kind in ("stmt", "return", "raise", "test") and not (n.kind == "stmt" and isinstance(n.ast, ast.Expr) and
               (isinstance(n.ast.value, ast.Constant) or any(n is e for (e, _c) in enq) or
                (isinstance(n.ast.value, ast.Call) and is_logging_call(n.ast.value)))) and not (n.kind == "return" and n.ast is None)]
     ck.require(not others, "C12.3", "%s: does nothing else" % q.fn(fp), "only the hand-off",
@@ -151,6 +162,9 @@ def check(ck):
         for n_ in later:
             if not q.guards_of(gi, n_, di) and gi.return_exit.id not in reachable_avoiding(gi, gi.entry.id, set([n_.id]), lambda l: l != "exc"):
                 st = [n_]
+        if not st and not later and any(isinstance(x_, ast.Call) and dump(x_.func) == "getattr" and len(x_.args) >= 2 and
+                                        isinstance(x_.args[1], ast.Constant) and x_.args[1].value == "start" for x_ in ast.walk(fi.node)):
+            raise AnalysisError("the request pool of PooledJSONRPCServer is started through getattr(<pool>, 'start', ...): not modelled")
         if not st and later:
             raise AnalysisError("the request pool of PooledJSONRPCServer is started under a condition (`%s`): not modelled" %
                                 " and ".join(dump(t_) for (t_, _p) in q.guards_of(gi, later[0], di))[:80])
